@@ -54,6 +54,11 @@ def plan(tier: str) -> dict[str, Any]:
 
 def gen_case(idx: int, seed: int, tier: str) -> Any:
     rng = case_rng(PROPERTY, seed, idx)
+    if idx % 100 == 71:
+        # the same component classes started a second (third) time in one process, after they have *gained* a prepare() / start()
+        # (a class decorator applied late, a test patching a method in): every start runs the methods the classes have then
+        return {"kind": "restart", "backend": rng.choice(["asyncio", "trio"]), "root_gains": rng.choice(["", "prepare", "start", "both"]),
+                "child_gains": rng.choice(["prepare", "start", "both"]), "third_start": rng.random() < 0.5}
     if rng.random() < 0.08:
         # a wide component: 9-24 children started at once, many of them waiting for (earlier and later) siblings
         fan = rng.choice([9, 10, 12, 16, 24])
@@ -95,7 +100,71 @@ def tree_features(tree: dict[str, Any]) -> dict[str, int]:
     return c
 
 
+async def restart_scenario(case: dict[str, Any], out: dict[str, Any]) -> None:
+    from asphalt.core import Component, Context, start_component
+
+    ran: list[str] = []
+
+    class Kid(Component):
+        pass
+
+    class Root(Component):
+        def __init__(self) -> None:
+            self.add_component("kid", Kid)
+
+    def hooks(who: str, which: str) -> dict[str, Any]:
+        async def prepare(self: Any) -> None:
+            ran.append(f"{who}.prepare")
+
+        async def start(self: Any) -> None:
+            ran.append(f"{who}.start")
+
+        return {k: v for k, v in (("prepare", prepare), ("start", start)) if which in (k, "both")}
+
+    async with Context():
+        await start_component(Root)
+    out["first"] = list(ran)
+    for cls, who, which in ((Root, "root", case["root_gains"]), (Kid, "kid", case["child_gains"])):
+        for name, fn in hooks(who, which).items():
+            setattr(cls, name, fn)
+    starts = []
+    for _ in range(2 if case["third_start"] else 1):
+        ran.clear()
+        async with Context():
+            await start_component(Root)
+        starts.append(list(ran))
+    out["later"] = starts
+    order = ["root.prepare", "kid.prepare", "kid.start", "root.start"]
+    out["expected"] = [x for x in order if x.split(".")[1] in ({"both": ("prepare", "start")}.get(case["root_gains" if x.startswith("root") else "child_gains"],
+                                                                                               (case["root_gains" if x.startswith("root") else "child_gains"],)))]
+
+
+def run_restart(case: dict[str, Any]) -> dict[str, Any]:
+    from vkit.trace import describe_exc
+    from vkit.vtime import VirtualDeadlock, run_virtual
+
+    out: dict[str, Any] = {}
+    V: list[dict[str, Any]] = []
+    try:
+        run_virtual(case["backend"], restart_scenario, case, out)
+    except VirtualDeadlock as e:
+        V.append({"key": "start-deadlock", "msg": str(e), "witness": {"case": case}})
+    except Exception as e:
+        V.append({"key": "start-raised", "msg": f"starting the same component classes again raised {describe_exc(e)}", "witness": {"case": case}})
+    if not V:
+        if out["first"]:
+            V.append({"key": "start-method-missing", "msg": f"components without prepare()/start() ran {out['first']}", "witness": {"case": case}})
+        for i, got in enumerate(out["later"]):
+            if got != out["expected"]:
+                V.append({"key": "start-method-missing", "msg": f"start #{i + 2} of component classes that had gained their prepare()/start() after the first start ran {got}, "
+                                                                f"expected {out['expected']}", "witness": {"case": case}})
+                break
+    return {"violations": V, "sig": ("restart", tuple(sorted(case.items()))), "nontrivial": True, "counters": {"classes_started_again_after_gaining_methods": 1}, "sample": None}
+
+
 def run_case(case: Any) -> dict[str, Any]:
+    if case.get("kind") == "restart":
+        return run_restart(case)
     run = e2.execute(case)
     V, c = e2.check_success(run)
     c.update(tree_features(case["tree"]))
